@@ -279,6 +279,25 @@ func c14negCases(st *Stats) []Case {
 			}
 		}
 	}
+	// the mechanism list in force: offered before TLS but not after, offered on the first connection but not on the
+	// second one of the same client (the Session is re-used), never offered
+	noMech := func(tls bool) string {
+		if tls {
+			return "1000"
+		}
+		return "0000"
+	}
+	add := func(insecure bool, ops ...[]string) {
+		cases = append(cases, Case{ID: fmt.Sprintf("neg%d", n), Variant: []string{"neg", "insecure=" + strconv.FormatBool(insecure), "sm=false"}, Ops: ops})
+		n++
+		st.Inc("session_mechanism_list")
+	}
+	for _, insecure := range bools {
+		add(insecure, happy(true, false, false).with("f2", "0000").op())                                  // PLAIN before TLS, nothing after
+		add(insecure, happy(true, false, false).op(), happy(true, false, false).with("f2", "0000").op()) // second connection
+		add(true, happy(false, false, false).op(), happy(false, false, false).with("f1", noMech(false)).op())
+		add(insecure, happy(true, false, false).with("f1", noMech(true), "f2", "0000").op())
+	}
 	st.Note(fmt.Sprintf("%d whole negotiations: reply classes {success, failure, other element, undecodable/closed} to <auth/> x insecure x STARTTLS x session-mandatory x sm, the server answering every later step as if nothing had happened", n))
 	return cases
 }
